@@ -35,6 +35,7 @@ class GatedSelector(selectors.BaseSelector):
         self.gate_until: dict[int, float] = {}  # fd -> virtual time before which its readiness is hidden
         self.on_idle: Callable[[], bool] | None = None  # harness hook: called when nothing is ready; True if it made progress
         self._spin = 0
+        self.spin_limit = SPIN_LIMIT  # drivers whose tasks legitimately yield thousands of times in a row raise it
         self.real_wait: Callable[[], bool] | None = None  # returns True if real time waiting may produce events (in-flight bytes)
 
     # -- registration: delegate
@@ -72,7 +73,7 @@ class GatedSelector(selectors.BaseSelector):
             return evs
         if timeout is not None and timeout <= 0:
             self._spin += 1
-            if self._spin > SPIN_LIMIT:
+            if self._spin > self.spin_limit:
                 self._spin = 0
                 nxt = self._clock.next_timer()
                 if nxt is not None and nxt > self._clock.now:
@@ -137,9 +138,10 @@ class VLoop(asyncio.SelectorEventLoop):
         self.vselector.gate_until[fd] = when
 
 
-def run(coro_fn: Callable[[], Coroutine[Any, Any, Any]], *, debug: bool = False) -> Any:
+def run(coro_fn: Callable[[], Coroutine[Any, Any, Any]], *, debug: bool = False, spin_limit: int = SPIN_LIMIT) -> Any:
     """Run `coro_fn()` to completion on a fresh virtual loop. VirtualDeadlock propagates."""
     loop = VLoop()
+    loop.vselector.spin_limit = spin_limit
     try:
         asyncio.set_event_loop(loop)
         loop.set_debug(debug)
